@@ -1,1 +1,2 @@
-
+import Proofs.Eval
+import Proofs.Context
